@@ -416,6 +416,45 @@ def corrupt_obligations(pid, tier, seed):
     return {'obligations': obs, 'bounds': bounds}
 
 
+# ---------------------------------------------------------------------------
+# C14: raising comparisons
+
+def cmpfail_obligations(pid, tier, seed):
+    obs = []
+    t = 300 if tier == 'quick' else 1800
+    sh, bounds = tree_shapes(tier, seed, quick_extra=(3, 1))
+    F = ['1 <= f <= 40']
+    for impl in ('c', 'py'):
+        for kind, tag, tpl, hist, L, I in sh:
+            m = shapes.n_ranks(tpl)
+            is_set = kind == 'TreeSet'
+            groups = [('write', 3, ['x']), ('del', 4 if not is_set else 3, ['x']), ('read', 5 if not is_set else 2, ['x']),
+                      ('range', 3, ['x', 'y'])]
+            groups.append(('inplace', 4, ['x', 'y']) if is_set else ('bulk', 2, ['x', 'y']))
+            for g, nops, argn in groups:
+                if tier == 'quick' and tag != 'core' and g in ('read', 'inplace', 'bulk'):
+                    continue
+                if tier == 'quick' and m > 4 and (g in ('range', 'inplace', 'bulk', 'read') or tag != 'core'
+                                                  or (kind == 'TreeSet' and g != 'del')):
+                    continue
+                args = [(n, 'int') for n in argn] + [('op', 'int'), ('f', 'int')]
+                P = dict(family='OO', impl=impl, kind=kind, tpl=tpl, L=L, I=I, group=g, prov='loaded')
+                obs.append(dict(id='%s/%s/%s/%s%s/%s/%s' % (pid, impl, kind, tag, '' if (L, I) == (2, 2) else '%d%d' % (L, I), sid(tpl), g),
+                                mod='h_cmpfail', fn='cmpfail_step', nk=m, args=args, pre=['0 <= op < %d' % nops] + F, params=P, timeout=t))
+        for kind in ('Bucket', 'Set'):
+            is_set = kind == 'Set'
+            for n in (0, 1, 3):
+                groups = [('write', 3, ['x']), ('del', 4 if not is_set else 3, ['x']), ('read', 5 if not is_set else 2, ['x']),
+                          ('range', 3, ['x', 'y'])]
+                for g, nops, argn in groups:
+                    args = [(a_, 'int') for a_ in argn] + [('op', 'int'), ('f', 'int')]
+                    P = dict(family='OO', impl=impl, kind=kind, n=n, group=g)
+                    obs.append(dict(id='%s/%s/%s/n%d/%s' % (pid, impl, kind, n, g), mod='h_cmpfail', fn='cmpfail_step', nk=n,
+                                    args=args, pre=['0 <= op < %d' % nops] + F, params=P, timeout=t))
+    bounds.update(failing_comparison_index='1..40; indices beyond the comparisons an operation makes are its fault-free path', per_condition_timeout_s=t)
+    return {'obligations': obs, 'bounds': bounds}
+
+
 COMMON_ASSUME = [
     'key objects are observed by the containers only through rich comparison, identity and None-ness '
     '(true for the object-key templates; native-key families are covered by their own obligations where stated)',
@@ -541,5 +580,20 @@ PROPS = {
         functions=['BTrees.check: check, Checker.check_sorted, Walker.walk, crack_btree, crack_bucket, classify', '_OOBTree.so: BTree_check, '
                    'BTree_check_inner', 'BTrees._base: _Tree._check'],
         assumptions=COMMON_ASSUME + ['single corruption of a state reachable through __setstate__'],
+    ),
+    'C14': dict(
+        families=['OO'],
+        gen=lambda tier, seed: cmpfail_obligations('C14', tier, seed),
+        explanation='The key class raises CmpError on its f-th comparison, f a solver variable in 0..20 (0 = never). From every '
+                    'catalogue shape (and leaves of 0/1/3 keys) with symbolic keys, one public call (lookup, insert/replace/'
+                    'setdefault, delete/pop, range search, minKey/maxKey, update, in-place set operators; selector and argument '
+                    'keys solver-chosen) runs on the real C and Python code. Asserted on every path: a fault that was reached '
+                    'surfaces as CmpError (never swallowed); afterwards the contents are the previous ones or the completed change '
+                    '(multi-key calls: no invented/lost key), both checkers and the walker accept, two further operations behave like '
+                    'the model, and for C every key object\'s reference count returns to its baseline when the container is dropped.',
+        functions=['_OOBTree.so: BTREE_SEARCH/BUCKET_SEARCH error exits, _BTree_set (incl. rollback of the first leaf), _BTree_get, '
+                   '_bucket_set, _bucket_get, BTree_findRangeEnd, BTree_rangeSearch, BTree_maxminKey, Bucket_*, set_i*/TreeSet_i*, update',
+                   'BTrees._base: _Tree._set/_del/_search/_findbucket, Bucket._set/_del/_search/_range, keys/minKey/maxKey'],
+        assumptions=COMMON_ASSUME + ['the fault is raised by key comparisons only (not by value comparison or hashing)'],
     ),
 }
